@@ -7,6 +7,9 @@ import Driver.BlockAlloc
 import Driver.EventQueue
 import Driver.Dispatch
 import Driver.Archive
+import Driver.Container
+import Driver.HashSet
+import Driver.Str
 import Driver.Target
 
 def main (args : List String) : IO UInt32 := do
@@ -20,5 +23,8 @@ def main (args : List String) : IO UInt32 := do
   | ["eventqueue"] => Driver.EventQueue.main; return 0
   | ["dispatch"] => Driver.Dispatch.main; return 0
   | ["archive"] => Driver.Archive.main; return 0
+  | ["container"] => Driver.Container.main; return 0
+  | ["hashset"] => Driver.HashSet.main; return 0
+  | ["str"] => Driver.Str.main; return 0
   | ["target"] => Driver.Target.main; return 0
   | _ => IO.eprintln "usage: driver <area>"; return 2
